@@ -1,4 +1,5 @@
 import SpgProofs.Properties.C08
+import SpgProofs.Properties.C08b
 #print axioms Spg.C08.unCap_eq
 #print axioms Spg.C08.allCap_iff
 #print axioms Spg.C08.list_contribution_indep
@@ -10,3 +11,7 @@ import SpgProofs.Properties.C08
 #print axioms Spg.C08.entropy_stream_indep
 #print axioms Spg.C08.entropy_stream_dependent_counterexample
 #print axioms Spg.C08.History.unCap_order_dependent_counterexample
+#print axioms Spg.C08.sepCall_indep_of_budget
+#print axioms Spg.C08.entropy_indep_of_budget
+#print axioms Spg.C08.body_indep_of_budget
+#print axioms Spg.C08.no_environment_inputs
